@@ -21,6 +21,17 @@ Definition pl (p : polytype) : polyfunc := mkP (pt_params p) (fn (pt_body p)).
 Definition fn_inv (f : functy) : functype := FT (f_in f) (f_out f) (f_reqs f).
 Definition pl_inv (p : polyfunc) : polytype := PT (p_params p) (fn_inv (p_body p)).
 
+(* the C06 operations without a C05 counterpart *)
+Definition c06_only {W} (o : op W) : bool :=
+  match o with
+  | OMakeTuple _ | OUnpackTuple _ | ONoop _ => true
+  | OOutput None | ODFG _ None _ | OCFG _ None | OBlock _ None _ _ | OBlock _ _ None _ | OExit None
+  | OLoadConst None | OConditional _ _ None | OCase _ None | OTailLoop _ _ None _ | OFuncDefn _ _ _ None
+  | OCallIndirect None => true
+  | OTag z _ => (z <? 0)%Z
+  | _ => false
+  end.
+
 Section Bridge.
   Variable H : Type.                       (* payload of function-valued constants (C05) *)
   Variable h_type : H -> functype.         (* its root's inner signature *)
@@ -89,17 +100,6 @@ Section Bridge.
     | OAliasDefn nm t => Some (CodecOps.OAliasDefn nm t)
     | _ => None
     end.
-  (* the C06 operations without a C05 counterpart *)
-  Definition c06_only (o : op V) : bool :=
-    match o with
-    | OMakeTuple _ | OUnpackTuple _ | ONoop _ => true
-    | OOutput None | ODFG _ None _ | OCFG _ None | OBlock _ None _ _ | OBlock _ _ None _ | OExit None
-    | OLoadConst None | OConditional _ _ None | OCase _ None | OTailLoop _ _ None _ | OFuncDefn _ _ _ None
-    | OCallIndirect None => true
-    | OTag z _ => (z <? 0)%Z
-    | _ => false
-    end.
-
   (* ---- what C06's model reports for an operation, in C06's own vocabulary ---- *)
   Definition static_kind (r : result kind) : option kind :=
     match r with
@@ -201,5 +201,5 @@ Section Bridge.
     end.
 End Bridge.
 
-Arguments to_c06 {H}. Arguments of_c06 {H}. Arguments c06_only {H}. Arguments bridge_ok {H}. Arguments tag_in_range {H}.
+Arguments to_c06 {H}. Arguments of_c06 {H}. Arguments bridge_ok {H}. Arguments tag_in_range {H}.
 Arguments op_mapV {H W}.
